@@ -118,3 +118,15 @@ Theorem C17_legacy_denom_refuted :
   set_amount empty_ostate nul_denom_entry = Err "key encoding: string contains the terminator" /\
   amount_valid nul_denom_entry = false.
 Proof. vm_compute. repeat split; reflexivity. Qed.
+
+(* finding 20 (C17): a counterparty identifier of the free-form protocol that is not valid UTF-8.  The pinned
+   validation accepted any string without a NUL byte; the exported JSON genesis cannot carry such bytes, so the
+   state did not survive an export / import.  The repaired validation requires valid UTF-8 (unicode/utf8.ValidString,
+   transcribed as [utf8_valid]). *)
+Theorem C17_legacy_utf8_refuted :
+  let bad := String "a" (String (ascii_of_N 255) "b") in
+  no_char "000"%char bad = true /\ valid_counterparty bad protocol_internal = false /\
+  utf8_valid (String (ascii_of_N 195) (String (ascii_of_N 169) "")) = true /\     (* U+00E9 *)
+  utf8_valid (String (ascii_of_N 237) (String (ascii_of_N 160) (String (ascii_of_N 128) ""))) = false /\   (* a surrogate *)
+  utf8_valid (String (ascii_of_N 192) (String (ascii_of_N 175) "")) = false.      (* an overlong form *)
+Proof. vm_compute. repeat split; reflexivity. Qed.
